@@ -163,7 +163,7 @@ func (w *thWorld) exec(f []string) string {
 			return ans
 		}
 		if exp := float32(want) / secs; got != exp {
-			w.fail("windowed-sum", fmt.Sprintf("AveragePerSecond(%v)=%v, want %v/%v=%v (live %v)", win, got, want, secs, exp, w.live),
+			w.fail("windowed-sum", fmt.Sprintf("AveragePerSecond(%v)=%v, want %v/%v=%v (live entries as time:count %s, now %d)", win, got, want, secs, exp, thShow(w.live), w.now),
 				w.sig("AveragePerSecond", "sum"))
 		}
 		total := math.Round(float64(got) * float64(secs))
@@ -175,6 +175,18 @@ func (w *thWorld) exec(f []string) string {
 	}
 
 	return "bad-op"
+}
+
+func thShow(l []thLive) string {
+	out := "["
+	for i, e := range l {
+		if i > 0 {
+			out += " "
+		}
+		out += fmt.Sprintf("%d:%d", e.t, e.count)
+	}
+
+	return out + "]"
 }
 
 func (w *thWorld) nontrivial() bool { return w.avgs >= 2 && w.expired >= 1 }
